@@ -265,7 +265,7 @@ def cases(spec, ctx):
             while glen // (ng + nf) < 12:
                 glen *= 2
             cs = _collection(rng, glen, ng, nf, layout)
-            yield {"kind": kind, "flavour": FLAVOURS[k % 2], "update_translations": bool((k // 2) % 2) or kind == "indwriter", "layout": layout,
+            yield {"kind": kind, "flavour": FLAVOURS[(k + k // 8) % 2], "update_translations": bool((k // 2 + k // 16) % 2) or kind == "indwriter", "layout": layout,
                    "glen": glen, "gseed": rng.randrange(1 << 30), "nfrac": 0.04 if rng.random() < 0.08 else 0.0,
                    "stale": rng.random() < 0.15, "spec": cs, "force_strand": rng.random() < 0.5, "iw": _iw_opts(rng)}
 
